@@ -80,8 +80,8 @@ F = {"closed-newton-cotes": (heavy.NodeSample.closed_linspace, heavy.IntegratorA
      "gauss-legendre": (heavy.NodeSample.gauss_legendre, heavy.IntegratorArray.gauss_legendre)}
 order = json.loads(sys.argv[1])
 res = {}
-for name, n in order:
-    res["%s/%d" % (name, n)] = (list(map(str, F[name][1](n))), list(map(str, F[name][0](n))))
+for name, n, which in order:
+    res["%s/%d/%s" % (name, n, which)] = list(map(str, F[name][1 if which == "w" else 0](n)))
 print(json.dumps(res))
 """
 
@@ -95,14 +95,19 @@ def _order_run(order):
                        env=dict(os.environ, PYTHONPATH=env.SRC, PYTHONWARNINGS="ignore"))
     if r.returncode != 0:
         raise RuntimeError(r.stderr[-400:])
-    return {k: (tuple(v[0]), tuple(v[1])) for k, v in json.loads(r.stdout.strip().splitlines()[-1]).items()}
+    return {k: tuple(v) for k, v in json.loads(r.stdout.strip().splitlines()[-1]).items()}
 
 
 def task_orders(nmax):
     """The answer does not depend on which rules or sizes were requested earlier (memo tables): three call orders in fresh processes."""
     fn = "heavy.IntegratorArray (memo tables)"
-    keys = [(name, n) for name in FAMILIES for n in range(FAMILIES[name][2], nmax + 1)]
-    orders = {"ascending": keys, "descending": keys[::-1], "interleaved": sorted(keys, key=lambda k: (-(k[1] % 3), k[1], k[0]))}
+    pairs_ = [(name, n) for name in FAMILIES for n in range(FAMILIES[name][2], nmax + 1)]
+    nodes_first = [(a, b, w) for a, b in pairs_ for w in ("x", "w")]
+    weights_first = [(a, b, w) for a, b in pairs_ for w in ("w", "x")]
+    keys = nodes_first
+    orders = {"ascending": nodes_first, "weights-before-nodes": weights_first, "descending": nodes_first[::-1],
+              "all-weights-then-all-nodes": sorted(nodes_first, key=lambda k: (k[2] != "w", -k[1], k[0])),
+              "interleaved": sorted(nodes_first, key=lambda k: (-(k[1] % 3), k[1], k[0], k[2]))}
     results = {}
     for label, order in orders.items():
         try:
@@ -115,7 +120,7 @@ def task_orders(nmax):
     again = _order_run([list(k) for k in keys[:6] + keys[:6]])
     diffs += [("repeat", k) for k in again if again[k] != base[k]]
     return [ob("%s:order-independent[n<=%d]" % (fn, nmax), fn, FAILED if diffs else PROVED, "B", "fresh-process", 0.0,
-               "3 call orders in fresh processes + repeated calls give identical rules for %d (family, n) pairs%s" % (len(keys), "; differs: %s" % diffs[:3] if diffs else ""),
+               "5 call orders (nodes / weights first, ascending, descending, interleaved) in fresh processes + repeated calls give identical rules for %d (family, n) pairs%s" % (len(keys), "; differs: %s" % diffs[:3] if diffs else ""),
                dict(kind="c10.order", diffs=[list(d) for d in diffs[:3]]) if diffs else None)]
 
 
@@ -184,6 +189,15 @@ def task_memo_frames():
                 problems.append("getter reassigns npts")
         if writes != 1:
             problems.append("%d write sites (expected exactly 1)" % writes)
+        mangled = "_%s%s" % (cls, attr)
+        for fnode in [n for n in ast.walk(tree) if isinstance(n, ast.FunctionDef)]:
+            for n in ast.walk(fnode):
+                if isinstance(n, ast.Attribute) and (n.attr == mangled or (n.attr == attr and isinstance(n.value, ast.Name) and n.value.id == cls)):
+                    inside = fnode.name == getter and any(fnode is b for b in cnode.body)
+                    if not inside:
+                        problems.append("referenced from %s at L%d (only the getter %s.%s may touch the table)" % (fnode.name, n.lineno, cls, getter))
+                if isinstance(n, ast.Constant) and n.value == mangled:
+                    problems.append("named as a string in %s at L%d" % (fnode.name, n.lineno))
         out.append(ob("%s:frame" % fn, fn, FAILED if problems else PROVED, "F", "ast", 0.0,
                       "; ".join(problems) if problems else "single write site, inside the getter, at key npts; the getter returns that entry; no other mutation of the table "
                       "=> the value at key n is a function of n alone, for every call order"))
